@@ -446,6 +446,8 @@ def main(argv):
                 rep.known_finding(kid, f'{known[kid]["what"][:160]} ({findings[kid]} schedules in this run)')
             else:
                 rep.violation(f'{kid}: the granted client missed an out-event (not a listed known finding)', {}, failing_input=True)
+    import transcription
+    transcription.report(rep, ['multi_client_selector', 'mutex_wrapped', 'ilog'])
     gate = proof_gate('C11')
     return rep.finish(gate, 'two fixed multi-client models (plain Claim/Release/Toast and odd names/formals/valued release; facilities created and imported); '
                       'schedules from the Gallina generators (witnesses of the refutations, random samples over 2-3 clients with programs of claim/use/release, '
